@@ -1,4 +1,4 @@
-HOOK_COMMITS = []
+HOOK_COMMITS = ["edb64ad"]
 NOTES = ("Every check is ./check <ID> --tier quick|thorough (python3 stdlib driver): it regenerates harness/go.mod with a replace to /repo, "
          "compiles the property's test binary with -tags verif from /repo's working tree, runs rapid shards with seeds derived from VERIF_SEED, "
          "merges their statistics into evidence/<ID>.json and prints VIOLATION/KNOWN-FINDING lines. exit 2 = undecided (build failure, inconclusive).")
@@ -83,5 +83,10 @@ META = {
   "technique": "property-based testing (rapid) over leader/follower cache pre-states (history-tree byte function) with the real gRPC leader/follower pair + enumeration of the interruption index of the transfer; oracle = follower bytes == leader history bytes, contiguity, single id",
   "text": "Pre-states cover every relation between the two caches named by the property; each transfer is cut after every message in turn and the follower restarted, and whatever the follower then claims to hold under the leader's id is read back completely and compared with the leader's history. Exploration + enumeration of the interruption point.",
   "note": "The harness decides that a session has quiesced by watching the follower's right edge / message counter (bounded waits); it does not own goroutine scheduling inside the pair.",
+ },
+ "C19": {
+  "technique": "property-based testing (rapid) over cluster layouts, streams and migration schedules against a specification-enforcing cluster double; oracle = per-key rewind-only order and no-silent-loss over the cluster-wide execution history",
+  "text": "Migration events are tied to the cluster-wide request counter so that they land between and inside batches; per-node latencies let several batches be in flight when a redirection is answered. The double refuses to execute anywhere but at the entitled node, which turns 'lost' and 'reordered' into observable history facts. Exploration level (the Go scheduler inside the cluster client is not owned).",
+  "note": "Streams are single-slot commands (the property's domain); quiescence after the last command is detected by a bounded wait.",
  },
 }
